@@ -31,6 +31,9 @@ class ProxyChunk:
     def __len__(self):
         return len(self.df)
 
+    def __getattr__(self, name):       # anything else is forwarded: the proxies only log, they never restrict
+        return getattr(self.df, name)
+
 
 class ProxyFrame:
     """What DataFrameReader needs from a data frame: len() and row slicing."""
@@ -48,6 +51,11 @@ class ProxyFrame:
         self.log.append(("column", str(item), None))  # a whole column at once
         return self.df[item]
 
+    def __getattr__(self, name):
+        if name in ("iloc", "loc", "values", "to_numpy", "itertuples", "iterrows"):
+            self.log.append(("other", name, None))   # access paths whose extent the proxy cannot see
+        return getattr(self.df, name)
+
 
 class ProxyDataset:
     def __init__(self, ds, log):
@@ -63,6 +71,11 @@ class ProxyDataset:
             self.log.append(("other", repr(item), None))
         return self.ds[item]
 
+    def __getattr__(self, name):
+        if name in ("read_direct", "astype", "fields", "iter_chunks"):
+            self.log.append(("other", name, None))
+        return getattr(self.ds, name)
+
 
 class ProxyH5:
     def __init__(self, f, log, first):
@@ -74,6 +87,15 @@ class ProxyH5:
         return ProxyDataset(ds, self.log if name == self.first else [])
 
     def close(self):
+        self.f.close()
+
+    def __getattr__(self, name):
+        return getattr(self.f, name)
+
+    def __enter__(self):
+        return self
+
+    def __exit__(self, *exc):
         self.f.close()
 
 
@@ -162,8 +184,13 @@ def run(ctx):
             eff_cs = cs  # DataReader.__init__ overwrites the min(n, cs) set by the file readers
             passes = split_passes(log, n)
             if passes is None:
-                ctx.fail("c18-whole-input", "the source was asked for something other than a row slice: %s"
-                         % [l for l in log if l[0] != "rows"][:3], dict(spec, log=log[:20]), case=idx)
+                odd = [l for l in log if l[0] != "rows"]
+                if any(l[0] == "column" for l in odd):
+                    ctx.fail("c18-whole-input", "the source was asked for a whole column at once: %s" % odd[:3],
+                             dict(spec, log=log[:20]), case=idx)
+                else:
+                    # an access path whose extent the logging proxy cannot see: the tie is broken, nothing is shown
+                    ctx.disagree("c18-access-path-not-observable", idx, dict(spec, log=log[:20]))
                 idx += 1
                 continue
             raw_ok = all((b - a) <= eff_cs for p in passes for a, b in p)
